@@ -138,6 +138,8 @@ static inline void begin_case(long n) {
 	phase("case-setup");
 }
 static inline void phase_log(const std::string &p) { phasef(p); Out &o = out(); fprintf(o.f, "{\"t\":\"phase\",\"p\":%s}\n", jstr(p).c_str()); fflush(o.f); }
+// free-form description of the current case, attached by the driver to crash/hang witnesses (not part of any key)
+static inline void context(const std::string &c) { Out &o = out(); fprintf(o.f, "{\"t\":\"ctx\",\"v\":%s}\n", jstr(c).c_str()); fflush(o.f); }
 static inline void count(const std::string &k, long d = 1) { out().counters[k] += d; }
 static inline void distinct(uint64_t h) { out().distinct.insert(h); }
 static inline void sample(const std::string &json, size_t max = 4) {
